@@ -42,6 +42,15 @@ CHECKS = {
  "C13": dict(cat="exploration", tech="deterministic simulation: key directory keyed by id across sibling backends, restarts and clones; independent digest as oracle",
    text="Ids of all key kinds are computed on every backend of a version, again after restart and on clones, for v1 keys held as PEM and DER; compared with an independent SHA-384/BLAKE2b-33 digest over header || canonical PASERK text; ids of different kinds never coincide even for identical key bytes; id texts round-trip; Eq/Ord/Hash/BTreeSet/HashSet agree with the 33 bytes; other decoded lengths are rejected.",
    note="pure function of the key: the simulator contributes agreement across parties and incarnations; inputs are sampled", ref="5 C13"),
+ "C11": dict(cat="exploration", tech="deterministic simulation: per-node simulated clocks (skew, jumps, delays) through hook H-clock, deliveries aimed at validity boundaries, boolean reference evaluation of random validator expressions",
+   text="Issuer and verifier nodes read their own simulated clocks (RegisteredClaims::now and Time::valid_now go through hook H-clock); the plan injects skew, clock jumps and network delay and aims deliveries at exp, exp+-1ns, nbf, nbf+-1ns and the leeway edges +-1ns, plus the ends of jiff's range. Each verifier policy is a random expression of depth <= 3 over all built-in validators, counting accept/reject leaves and every combinator (and_then, Vec, slice, Box, Rc, Arc, map), evaluated through unseal on real tokens and directly. Oracle: a ten-line boolean interpreter; claims are released iff authentic and accepted, rejections are ClaimsError, leaves are visited in order with short-circuit.",
+   note="now +- leeway outside jiff's range is excluded as the property says; the clock is the only stub", ref="5 C11"),
+ "C14": dict(cat="exploration", tech="deterministic simulation: foreign issuers (generic JSON producers) and a generic JSON parser + independent RFC 3339 reader as reference model; the same claims travel as tokens in C01/C11",
+   text="All 128 presence patterns of RegisteredClaims with adversarial Unicode strings and full-range ns timestamps are encoded, inspected on the wire by a generic JSON parser and an independent RFC 3339 reader, and decoded back; foreign JSON objects (extra, nested, reordered, null, wrongly typed, duplicated members, escaped names, other RFC 3339 spellings) must, whenever accepted, give each claim the generic reading; Json<T> bytes equal serde_json's.",
+   note="pure codec: simulation contributes the foreign-issuer party and the in-world traffic; inputs are sampled (presence patterns enumerated)", ref="5 C14"),
+ "C17": dict(cat="exploration", tech="deterministic simulation: baton scheduler over 2..16 real OS threads sharing key objects, seeded random / PCT / round-robin interleavings at operation boundaries, bit-identity against sequential re-execution; crash containment by child processes; Miri seeded preemption for the pure-Rust backends (thorough)",
+   text="Thread episodes on all six backends (real aws-lc and libsodium code): shared key objects (created on one OS thread, used on others, dropped on a third), private clones, clones handed to other threads to drop, scripts mixing succeeding and deliberately failing operations; exactly one thread runs at a time and the seeded scheduler chooses at every operation boundary. Because every random draw is a per-(thread, operation) seeded stream, each result must be bit-identical to the script run alone on fresh keys and to the script without its failing operations; shared key bytes and a probe decrypt/verify are unchanged afterwards; a process abort is located, minimised and replayed through child processes. Thorough tier adds Miri (data-race and UB detection, seeded preemption) for paseto-v2/v4/core.",
+   note="preemption inside an aws-lc or libsodium call is out of reach (one runnable thread at a time; Miri cannot cross FFI): data races inside the C code on a shared EC_KEY would need a race detector on truly parallel runs, which is runtime monitoring, not this technique", ref="5 C17"),
 }
 
 NA = {
